@@ -8,6 +8,7 @@ import glob
 import json
 import os
 import vlib
+from props import bcommon
 
 
 def _canaries(recs):
@@ -43,14 +44,14 @@ def run(prop, tier, seed):
     wd = vlib.workdir(prop)
     mod = os.path.join(vlib.SPEC, "props", "C24.tla")
     env = {"TIER": tier, "SEED": str(seed)}
-    enum_cases, res_e = vlib.gen_enumerate(prop, mod, env=env, workers=6, timeout=800)
-    nrand = 30 if tier == "quick" else 800
-    rand_cases, res_r = vlib.gen_simulate(prop, mod, nrand, seed, env=env, timeout=800,
+    enum_cases, res_e = bcommon.gen_enumerate(prop, mod, env=env, timeout=800)
+    nrand = 30 if tier == "quick" else 700
+    rand_cases, res_r = bcommon.gen_simulate(prop, mod, nrand, seed, env=env, timeout=800,
                                           cfg=os.path.join(vlib.SPEC, "props", "C24R.cfg"))
     cases = enum_cases + rand_cases
     if not cases:
         raise vlib.ToolError("C24 generator produced no cases")
-    obs, hwall = vlib.run_harness(cases, wd, timeout=120)
+    obs, hwall = bcommon.run_harness(cases, wd, timeout=120)
     broken = sum(1 for o in obs if o.get("compile") != "ok" or o.get("status") in ("abort", "timeout"))
     if broken * 4 > len(cases):
         raise vlib.ToolError("%d of %d comparison programs did not compile or were aborted: harness/generator problem" % (broken, len(cases)))
@@ -69,9 +70,8 @@ def run(prop, tier, seed):
     vlib.write_ndjson(opath, allrecs)
     vdir = os.path.join(wd, "verdicts")
     os.makedirs(vdir, exist_ok=True)
-    res_v = vlib.tlc(os.path.join(vlib.SPEC, "props", "C24V.tla"), env={"OBS": opath, "OUTDIR": vdir, "TIER": tier},
-                     workers=6, timeout=1500)
-    vlib.tlc_ok(res_v, "C24V.tla")
+    res_v = bcommon.tlc(os.path.join(vlib.SPEC, "props", "C24V.tla"), env={"OBS": opath, "OUTDIR": vdir, "TIER": tier},
+                        timeout=1500)
     verdicts = {}
     for f in glob.glob(os.path.join(vdir, "v_*.json")):
         with open(f) as fh:
